@@ -574,7 +574,10 @@ def finish(report, level_text=None):
         report.checker_errors.append('cross-check: the outcome predicted from the body of %s and the contracts of its callees differs from '
                                      'CPython (an engine defect, or a callee that no longer meets its contract): %r' % (d['contract'], d['mismatch']))
     recs = report.records
-    n_ob = sum(x.get('count', 1) for x in recs)
+    # the proof consists of the obligations that were decided; undecided ones (solver timeout / unknown, unconfirmed counter-models) are
+    # NOT part of the claim: they are listed separately and their functions fall to the bounded stand-ins
+    undecided_n = sum(x.get('count', 1) for x in recs if x['result'] in ('undecided', 'failed-unconfirmed'))
+    n_ob = sum(x.get('count', 1) for x in recs if x['result'] not in ('undecided', 'failed-unconfirmed'))
     n_dis = sum(x.get('count', 1) for x in recs if x['result'] == 'discharged')
     by_backend = {}
     for x in recs:
@@ -610,7 +613,7 @@ def finish(report, level_text=None):
         'violations': len(set(v['replay'] for v in report.violations)),
         'assumptions': sorted(report.assumptions),
         'coverage': {
-            'obligations': n_ob, 'discharged': n_dis, 'by_backend': by_backend,
+            'obligations': n_ob, 'discharged': n_dis, 'by_backend': by_backend, 'undecided_obligations': undecided_n,
             'checker_cmd': './check %s --tier %s' % (prop, report.tier),
             'trusted_base': sorted(report.trusted),
             'solver_s': round(report.solver_s, 2),
@@ -636,7 +639,7 @@ def finish(report, level_text=None):
     os.makedirs(evidence_dir(), exist_ok=True)
     with open(os.path.join(evidence_dir(), prop + '.json'), 'w') as f:
         json.dump(ev, f, indent=1, default=repr)
-    print('%s: obligations=%d discharged=%d backends=%s bounded_cases=%d violations=%d undecided=%d known=%d wall=%.1fs exit=%d'
-          % (prop, n_ob, n_dis, by_backend, sum(b['cases'] for b in report.bounded), len(report.violations), len(report.undecided),
+    print('%s: obligations=%d discharged=%d (+%d undecided, not claimed) backends=%s bounded_cases=%d violations=%d undecided=%d known=%d wall=%.1fs exit=%d'
+          % (prop, n_ob, n_dis, undecided_n, by_backend, sum(b['cases'] for b in report.bounded), len(report.violations), len(report.undecided),
              len(report.known), time.time() - report.t0, code))
     return code
